@@ -30,7 +30,7 @@ from props import unitlib as ul
 ID = 'C05'
 PROFILES = ['dev']
 REPLAY_PROFILES = ['dev', 'release']
-TIME_LIMIT = {'quick': 540, 'thorough': 3000}
+TIME_LIMIT = {'quick': 900, 'thorough': 3000}
 BUDGET = 150
 FIRST_BUDGET = 50
 SPECIAL = ['°']      # the only non-ASCII character the query lexer admits into a WORD token (μ, Ω and '-' can never reach the unit parser)
